@@ -341,6 +341,12 @@ def oracle(rng, tier, seed, focus, cases):
             if ctx.unavailable.get(g) == 'not-reproducible' or ref.get(g) == 'nonrepro':
                 continue
             if ctx.fresh.get(g) != ref.get(g):
+                # two processes: confirm up to ~1e-9 of the magnitude (FFT/BLAS kernels pick their SIMD path by alignment)
+                with oc.quiet():
+                    o2, _ = ctx.build(0)
+                v2, e2 = oc.read_result(o2, g)
+                if e2 is None and oc.hv_coarse(v2) == refs.coarse((ctx.cls, ctx.label, 'p', 0), g):
+                    continue
                 key = '%s/%s/fresh-object-differs-from-fresh-process' % (ctx.cls, g)
                 fails.append(Failure(key, '%s(%s): `%s` read first on a newly built analyzer in the long-running harness process differs from the same '
                                           'read in a fresh process (state outside the object: class attributes, module-level objects)' % (ctx.cls, ctx.label, g),
@@ -450,8 +456,14 @@ def replay(d):
         # meaningful only inside a full run (needs the long-running process); re-run the sessions' reference instead
         for ctx in contexts(seed, 'quick'):
             if ctx.cls == d['cls'] and ctx.label == d['label']:
-                ref = OS.Refs(seed, 'quick').get((ctx.cls, ctx.label, 'p', 0))['getters']
+                refs = OS.Refs(seed, 'quick')
+                ref = refs.get((ctx.cls, ctx.label, 'p', 0))['getters']
                 if ctx.fresh_hash(d['procfresh']) != ref.get(d['procfresh']):
+                    with oc.quiet():
+                        o2, _ = ctx.build(0)
+                    v2, e2 = oc.read_result(o2, d['procfresh'])
+                    if e2 is None and oc.hv_coarse(v2) == refs.coarse((ctx.cls, ctx.label, 'p', 0), d['procfresh']):
+                        return None
                     return Failure(d['key'], 'in-process fresh read differs from fresh-process read', d)
         return None
     if d.get('mutate'):
